@@ -22,7 +22,13 @@ func runC06(o *out, r *rng, thorough bool, rp string) {
 	for i := 0; i < runs; i++ {
 		var local []violation
 		viol := func(clause, sig, detail string) { local = append(local, violation{Clause: clause, Signature: sig, Detail: detail}) }
-		res := simScenario(r, viol)
+		var res *simResult
+		if i%10 == 9 {
+			res = lateQualityScenario(r, viol)
+			o.Dist["late-quality-scenario"]++
+		} else {
+			res = simScenario(r, viol)
+		}
 		bound := res.roundAtStab + 6
 		if res.byzVotes > 0 {
 			bound = res.roundAtStab + 40
@@ -86,6 +92,18 @@ func runC06(o *out, r *rng, thorough bool, rp string) {
 		}
 		o.count("C06-lost-wakeup-script", strings.Join(d.events, ";"), asleep)
 	}
+	// late QUALITY quorum: candidates grow after the QUALITY phase (updateCandidatesFromQuality) and a later CONVERGE relies on it
+	for k := 0; k < 4; k++ {
+		d, adopted := scriptLateQuality(r, k)
+		o.coqCase(fmt.Sprintf("late QUALITY script %d: %s", k, strings.Join(d.desc, " | ")),
+			fmt.Sprintf("trace_ok %s %s %s", d.cfgTerm(), d.ct.raw(d.input), cList(d.events)))
+		if adopted {
+			o.Dist["late-quality-value-adopted-at-converge"]++
+		} else {
+			o.Dist["late-quality-value-not-adopted"]++
+		}
+		o.count("C06-late-quality-script", strings.Join(d.events, ";"), true)
+	}
 	o.finish("From F3 Require Import GoInt QuorumGen Instance InstanceRun.")
 }
 
@@ -120,4 +138,70 @@ func scriptLostWakeup(r *rng, variant int) (*instDriver, bool) {
 	_ = d.fireAlarm() // phase timeout: deadline not reached
 	pr := d.p.Progress()
 	return d, !d.hasAl && d.host.decision == nil && pr.Phase == gpbft.PREPARE_PHASE
+}
+
+// the subject's QUALITY phase times out with only its own vote (proposal trimmed to the base); the QUALITY votes of a
+// strong quorum arrive afterwards; round 0 ends in COMMIT bottom; in round 1 the others offer a prefix of the common
+// input at CONVERGE.  Returns the driver and whether the subject PREPAREd that prefix in round 1.
+func scriptLateQuality(r *rng, variant int) (*instDriver, bool) {
+	input := mkChain("lq", 2)
+	powers := []int64{1, 30, 30}
+	opts := []gpbft.Option{gpbft.WithDelta(time.Second), gpbft.WithDeltaBackOffExponent(1.5), gpbft.WithRebroadcastBackoff(1.3, 0, 700*time.Millisecond, 5*time.Second),
+		gpbft.WithMaxLookaheadRounds(4)}
+	d := newInstDriver(r, 3, powers[0], powers, input, opts...)
+	bottom := &gpbft.ECChain{}
+	offered := input
+	if variant%2 == 1 {
+		offered = input.Prefix(1)
+	}
+	lateQ := input
+	if variant >= 2 {
+		lateQ = offered
+	}
+	selfQueue := 0
+	flush := func() {
+		for selfQueue < len(d.host.bcasts) && d.host.decision == nil {
+			m := d.host.bcasts[selfQueue]
+			selfQueue++
+			_, _ = d.deliver(d.subject, m.Vote.Round, m.Vote.Phase, m.Vote.Value, m.Justification)
+		}
+	}
+	alarm := func() {
+		flush()
+		if d.alarm.After(d.now) {
+			d.now = d.alarm
+		}
+		d.hasAl = false
+		_ = d.fireAlarm()
+		flush()
+	}
+	tick := func() { d.now = d.now.Add(10 * time.Millisecond) }
+	must(d.start())
+	alarm() // QUALITY timeout: only the own vote -> proposal = base, PREPARE base
+	tick()
+	d.deliver(2, 0, gpbft.QUALITY_PHASE, input, nil)
+	tick()
+	d.deliver(3, 0, gpbft.QUALITY_PHASE, lateQ, nil) // late strong quorum for (a prefix of) the input
+	tick()
+	d.deliver(2, 0, gpbft.PREPARE_PHASE, input, nil)
+	tick()
+	d.deliver(3, 0, gpbft.PREPARE_PHASE, input, nil) // base can no longer reach a quorum: COMMIT bottom
+	flush()
+	tick()
+	d.deliver(2, 0, gpbft.COMMIT_PHASE, bottom, nil)
+	tick()
+	d.deliver(3, 0, gpbft.COMMIT_PHASE, bottom, nil) // strong quorum for bottom: round 1, CONVERGE
+	flush()
+	tick()
+	d.deliver(2, 1, gpbft.CONVERGE_PHASE, offered, d.justify(0, gpbft.COMMIT_PHASE, bottom))
+	tick()
+	d.deliver(3, 1, gpbft.CONVERGE_PHASE, offered, d.justify(0, gpbft.COMMIT_PHASE, bottom))
+	alarm() // CONVERGE timeout
+	adopted := false
+	for _, m := range d.host.bcasts {
+		if m.Vote.Round == 1 && m.Vote.Phase == gpbft.PREPARE_PHASE && m.Vote.Value.Eq(offered) {
+			adopted = true
+		}
+	}
+	return d, adopted
 }
